@@ -159,7 +159,9 @@ func (e *Engine) Begin(ctx context.Context, lock bool) (*Transaction, error) {
 	// acquire token (without lock); use a tomb-aware context so that a shutdown
 	// unblocks the acquisition
 	e.mutex.Unlock()
+	verifPoint("begin.unlocked")
 	ok = e.token.Acquire(e.tomb.Context(ctx).Done(), time.Minute)
+	verifPoint("begin.acquired")
 	e.mutex.Lock()
 	if !ok {
 		if !e.tomb.Alive() {
@@ -225,15 +227,18 @@ func (e *Engine) Commit(txn *Transaction) error {
 	txn.Clean(e.opts.MinOplogSize, e.opts.MaxOplogSize, e.opts.MinOplogAge, e.opts.MaxOplogAge)
 
 	// write catalog
+	verifPoint("commit.beforeStore")
 	err := e.store.Store(txn.Catalog())
 	if err != nil {
 		return err
 	}
 
 	// set new catalog
+	verifPoint("commit.beforePublish")
 	e.catalog = txn.Catalog()
 
 	// broadcast change
+	verifPoint("commit.beforeBroadcast")
 	for stream := range e.streams {
 		select {
 		case stream.signal <- struct{}{}:
@@ -266,6 +271,7 @@ func (e *Engine) Abort(txn *Transaction) {
 	e.txn = nil
 
 	// release token
+	verifPoint("abort.beforeRelease")
 	e.token.Release()
 }
 
@@ -391,6 +397,7 @@ func (e *Engine) Close() {
 	// calls can re-acquire the mutex and observe the dead tomb
 	e.tomb.Kill(nil)
 	e.mutex.Unlock()
+	verifPoint("close.unlocked")
 
 	// close each stream under its own mutex so concurrent or subsequent
 	// Stream.Close calls observe s.closed and skip the (now closed) signal
